@@ -373,10 +373,13 @@ def run(chk):
     for n in ast.walk(cp.node):
         if isinstance(n, ast.Assign) and unparse(n.targets[0]) == "temperature_constraints" and isinstance(n.value, ast.Dict):
             written = {const_str(k): unparse(v) for k, v in zip(n.value.keys, n.value.values)}
-    from engine.pattern import Expander
-    ex_ps = Expander(ps.node)
-    SUB = [p_ for p_ in ps.params if p_ != "self"][0]
-    read = {const_str(n.slice) for n in ast.walk(ps.node) if isinstance(n, ast.Subscript) and const_str(n.slice) and ex_ps.text(n.value) == f"{SUB}.temperature_constraints"}
+    from rules.evaluators import evaluator_outcomes
+    read = set()
+    for mk_, o_ in evaluator_outcomes(chk, ps, "stored").items():
+        for call in o_.get("get_full_model_x", []):
+            read |= {a_ for a_ in call[2:]}
+        for call in o_.get("full_model", []):
+            read |= {t_ for t_ in ("T_min", "T_max") if t_ in call[7]}
     r4.require(set(written) == read == {"T_min", "T_max", "T_min_seg", "T_max_seg"}, f"{cp.key}|limits-keys", cp.where(), f"temperature limits written {sorted(written)} vs read {sorted(read)}")
     for k, v in written.items():
         r4.require(v == f"submodel.{k}", f"{cp.key}|limit:{k}", cp.where(), f"recorded limit `{k}` must be the component's own {k}; found `{v}`", sample={"key": k, "source": v})
